@@ -20,6 +20,7 @@ CONSTANTS Ids,          \* subscription ids a client may use
           MutQueries,   \* subset of Queries that are mutations: running one changes the data
           Res,          \* [Queries -> [0..MaxVer -> value | "FAIL"]]  result of a query at a data version
           MaxVer, MaxInst, MaxSubs,
+          AllowCtxCancel, \* the environment may cancel the connection's context (model-checking scope switch)
           CloseSelfOnly \* TRUE: an instance's asynchronous close only ever closes that instance (current code)
                         \* FALSE: it closes whatever is registered under the id by then (the original code)
 
@@ -48,10 +49,11 @@ VARIABLES
   lateWrite,  \* an update was written for an id in state unsubbed (ghost)
   believes,   \* [Ids -> BOOLEAN]  the client has every reason to believe it is subscribed under this id: its
               \* subscribe was accepted and it has neither unsubscribed nor been sent an error for the id (ghost)
+  ctxc,       \* the connection's context has been cancelled: no computation completes normally any more (ghost/env)
   cause,      \* [Inst -> why the instance ended: "unsub" | "self" | "close" | "stale" | "none"] (ghost)
   nextInst, msgs
 vars == <<subs, ist, iid, ikind, iq, iinit, iprev, iread, ipend, data, client, gotFirst, closeQ, logq, closed,
-          ended, unsubbed, lateWrite, believes, cause, nextInst, msgs>>
+          ended, unsubbed, lateWrite, believes, cause, nextInst, msgs, ctxc>>
 
 BAdd(b, x) == IF x \in DOMAIN b THEN [b EXCEPT ![x] = @ + 1] ELSE b @@ (x :> 1)
 BRem(b, x) == IF b[x] = 1 THEN [y \in DOMAIN b \ {x} |-> b[y]] ELSE [b EXCEPT ![x] = @ - 1]
@@ -66,7 +68,7 @@ Init ==
   /\ closeQ = <<>> /\ logq = <<>> /\ closed = FALSE
   /\ ended = [i \in Inst |-> 0] /\ unsubbed = [i \in Ids |-> FALSE] /\ lateWrite = FALSE
   /\ believes = [i \in Ids |-> FALSE] /\ cause = [i \in Inst |-> "none"]
-  /\ nextInst = 1 /\ msgs = 0
+  /\ nextInst = 1 /\ msgs = 0 /\ ctxc = FALSE
 
 Live(i) == ist[i] \in {"sched", "run", "idle"}
 NumSubs == Cardinality({id \in Ids : subs[id] # 0})
@@ -94,14 +96,14 @@ RecvSubscribe(id, q) ==
   /\ unsubbed' = [unsubbed EXCEPT ![id] = FALSE]
   /\ believes' = [believes EXCEPT ![id] = TRUE]
   /\ msgs' = msgs + 1
-  /\ UNCHANGED <<iinit, iprev, iread, ipend, data, closeQ, closed, ended, lateWrite, cause>>
+  /\ UNCHANGED <<iinit, iprev, iread, ipend, data, closeQ, closed, ended, lateWrite, cause, ctxc>>
 
 \* subscribe rejected (duplicate id, too many subscriptions, bad query): one error envelope, nothing else changes
 RecvSubscribeRejected(id, q) ==
   /\ ~closed /\ (subs[id] # 0 \/ NumSubs + 1 > MaxSubs \/ q \in BadQueries)
   /\ msgs' = msgs + 1
   /\ UNCHANGED <<subs, ist, iid, ikind, iq, iinit, iprev, iread, ipend, data, client, gotFirst, closeQ, logq, closed,
-                 ended, unsubbed, lateWrite, believes, cause, nextInst>>
+                 ended, unsubbed, lateWrite, believes, cause, nextInst, ctxc>>
 
 \* unsubscribe: closeSubscription(id) on the reader goroutine
 RecvUnsubscribe(id) ==
@@ -113,7 +115,7 @@ RecvUnsubscribe(id) ==
   /\ unsubbed' = [unsubbed EXCEPT ![id] = TRUE]
   /\ believes' = [believes EXCEPT ![id] = FALSE]
   /\ msgs' = msgs + 1
-  /\ UNCHANGED <<iid, ikind, iq, iinit, iprev, iread, ipend, data, client, gotFirst, closeQ, closed, lateWrite, nextInst>>
+  /\ UNCHANGED <<iid, ikind, iq, iinit, iprev, iread, ipend, data, client, gotFirst, closeQ, closed, lateWrite, nextInst, ctxc>>
 
 \* mutate accepted: a one-shot rerunner registered under the id (duplicate ids are rejected like for subscribe)
 RecvMutate(id, q) ==
@@ -125,13 +127,13 @@ RecvMutate(id, q) ==
      /\ iq' = [iq EXCEPT ![i] = q]
      /\ nextInst' = i + 1
   /\ msgs' = msgs + 1
-  /\ UNCHANGED <<iinit, iprev, iread, ipend, data, client, gotFirst, closeQ, logq, closed, ended, unsubbed, lateWrite, believes, cause>>
+  /\ UNCHANGED <<iinit, iprev, iread, ipend, data, client, gotFirst, closeQ, logq, closed, ended, unsubbed, lateWrite, believes, cause, ctxc>>
 
 RecvMutateRejected(id, q) ==
   /\ ~closed /\ q \in MutQueries /\ (subs[id] # 0 \/ q \in BadQueries)
   /\ msgs' = msgs + 1
   /\ UNCHANGED <<subs, ist, iid, ikind, iq, iinit, iprev, iread, ipend, data, client, gotFirst, closeQ, logq, closed,
-                 ended, unsubbed, lateWrite, believes, cause, nextInst>>
+                 ended, unsubbed, lateWrite, believes, cause, nextInst, ctxc>>
 
 \* the socket fails / the client goes away: closeSubscriptions stops and un-logs everything registered
 SocketClose ==
@@ -145,7 +147,7 @@ SocketClose ==
   /\ subs' = [id \in Ids |-> 0]
   /\ closed' = TRUE
   /\ believes' = [id \in Ids |-> FALSE]
-  /\ UNCHANGED <<iid, ikind, iq, iinit, iprev, iread, ipend, data, client, gotFirst, closeQ, unsubbed, lateWrite, nextInst, msgs>>
+  /\ UNCHANGED <<iid, ikind, iq, iinit, iprev, iread, ipend, data, client, gotFirst, closeQ, unsubbed, lateWrite, nextInst, msgs, ctxc>>
 
 -----------------------------------------------------------------------------
 \* the rerunner goroutines
@@ -154,13 +156,13 @@ RunStart(i) ==
   /\ ist[i] = "sched"
   /\ ist' = [ist EXCEPT ![i] = "run"]
   /\ iread' = [iread EXCEPT ![i] = -1] /\ ipend' = [ipend EXCEPT ![i] = FALSE]
-  /\ UNCHANGED <<subs, iid, ikind, iq, iinit, iprev, data, client, gotFirst, closeQ, logq, closed, ended, unsubbed, lateWrite, believes, cause, nextInst, msgs>>
+  /\ UNCHANGED <<subs, iid, ikind, iq, iinit, iprev, data, client, gotFirst, closeQ, logq, closed, ended, unsubbed, lateWrite, believes, cause, nextInst, msgs, ctxc>>
 
 \* the resolvers register their dependencies and read the data
 RunRead(i) ==
   /\ ist[i] = "run" /\ ikind[i] = "sub" /\ iread[i] = -1
   /\ iread' = [iread EXCEPT ![i] = data]
-  /\ UNCHANGED <<subs, ist, iid, ikind, iq, iinit, iprev, ipend, data, client, gotFirst, closeQ, logq, closed, ended, unsubbed, lateWrite, believes, cause, nextInst, msgs>>
+  /\ UNCHANGED <<subs, ist, iid, ikind, iq, iinit, iprev, ipend, data, client, gotFirst, closeQ, logq, closed, ended, unsubbed, lateWrite, believes, cause, nextInst, msgs, ctxc>>
 
 \* what the client of id holds after delta d
 Apply(id, d) == IF d = NoDiff THEN client[id] ELSE Norm(ClientMerge(client[id], d))
@@ -179,7 +181,7 @@ SubRunOK(i) ==
      /\ iprev' = [iprev EXCEPT ![i] = cur]
      /\ iinit' = [iinit EXCEPT ![i] = FALSE]
      /\ ist' = [ist EXCEPT ![i] = IF ipend[i] THEN "sched" ELSE "idle"]
-  /\ UNCHANGED <<subs, iid, ikind, iq, iread, ipend, data, closeQ, logq, closed, ended, unsubbed, believes, cause, nextInst, msgs>>
+  /\ UNCHANGED <<subs, iid, ikind, iq, iread, ipend, data, closeQ, logq, closed, ended, unsubbed, believes, cause, nextInst, msgs, ctxc>>
 
 \* a subscription run fails: the first run reports the error once and closes itself asynchronously;
 \* a later run is retried silently (the client keeps its last value)
@@ -194,7 +196,25 @@ SubRunFail(i) ==
           /\ believes' = [believes EXCEPT ![iid[i]] = IF subs[iid[i]] = i THEN FALSE ELSE @]     \* the error envelope
      ELSE /\ ist' = [ist EXCEPT ![i] = "sched"]           \* RetrySentinelError: run again later
           /\ UNCHANGED <<ended, closeQ, believes, cause>>
-  /\ UNCHANGED <<subs, iid, ikind, iq, iinit, iprev, iread, ipend, data, client, gotFirst, logq, closed, unsubbed, lateWrite, nextInst, msgs>>
+  /\ UNCHANGED <<subs, iid, ikind, iq, iinit, iprev, iread, ipend, data, client, gotFirst, logq, closed, unsubbed, lateWrite, nextInst, msgs, ctxc>>
+
+\* a run fails with a cancelled-context error because the connection's context was cancelled while a
+\* resolver was at work: nothing is written, the instance is over and closes itself asynchronously.
+\* (A resolver that returns a cancelled-context error of its own while the connection is fine is outside the
+\* model: thunder ends such a subscription without telling the client.)
+SubRunCancelled(i) ==
+  /\ ist[i] = "run" /\ ikind[i] = "sub" /\ ctxc
+  /\ ist' = [ist EXCEPT ![i] = "ended"]
+  /\ ended' = [ended EXCEPT ![i] = @ + 1]
+  /\ cause' = [cause EXCEPT ![i] = "self"]
+  /\ closeQ' = BAdd(closeQ, <<iid[i], i>>)
+  /\ UNCHANGED <<subs, iid, ikind, iq, iinit, iprev, iread, ipend, data, client, gotFirst, logq, closed, unsubbed, lateWrite, believes, nextInst, msgs, ctxc>>
+
+\* the connection's context is cancelled (the server is shutting the connection down; the socket is still open)
+CtxCancel ==
+  /\ AllowCtxCancel /\ ~ctxc /\ ctxc' = TRUE
+  /\ UNCHANGED <<subs, ist, iid, ikind, iq, iinit, iprev, iread, ipend, data, client, gotFirst, closeQ, logq, closed,
+                 ended, unsubbed, lateWrite, believes, cause, nextInst, msgs>>
 
 \* a mutation runs once: its resolver changes the data ...
 MutApply(i) ==
@@ -203,7 +223,7 @@ MutApply(i) ==
   /\ data' = data + 1
   /\ iread' = [iread EXCEPT ![i] = data + 1]
   /\ ipend' = [j \in Inst |-> IF ist[j] = "run" /\ iread[j] >= 0 /\ j # i THEN TRUE ELSE ipend[j]]
-  /\ UNCHANGED <<subs, ist, iid, ikind, iq, iinit, iprev, client, gotFirst, closeQ, logq, closed, ended, unsubbed, lateWrite, believes, cause, nextInst, msgs>>
+  /\ UNCHANGED <<subs, ist, iid, ikind, iq, iinit, iprev, client, gotFirst, closeQ, logq, closed, ended, unsubbed, lateWrite, believes, cause, nextInst, msgs, ctxc>>
 
 \* ... the result (or error) is written and it closes itself asynchronously
 MutDone(i) ==
@@ -212,7 +232,7 @@ MutDone(i) ==
   /\ ended' = [ended EXCEPT ![i] = @ + 1]
   /\ cause' = [cause EXCEPT ![i] = "self"]
   /\ closeQ' = BAdd(closeQ, <<iid[i], i>>)
-  /\ UNCHANGED <<subs, iid, ikind, iq, iinit, iprev, iread, ipend, data, client, gotFirst, logq, closed, unsubbed, lateWrite, believes, nextInst, msgs>>
+  /\ UNCHANGED <<subs, iid, ikind, iq, iinit, iprev, iread, ipend, data, client, gotFirst, logq, closed, unsubbed, lateWrite, believes, nextInst, msgs, ctxc>>
 
 \* the asynchronous `go c.closeSubscription(id)` of instance i
 AsyncClose(id, i) ==
@@ -225,7 +245,7 @@ AsyncClose(id, i) ==
           /\ subs' = [subs EXCEPT ![id] = 0]
           /\ logq' = Append(logq, <<"unsub", id, ikind[cur]>>)
      ELSE UNCHANGED <<subs, ist, ended, logq, cause>>
-  /\ UNCHANGED <<iid, ikind, iq, iinit, iprev, iread, ipend, data, client, gotFirst, closed, unsubbed, lateWrite, believes, nextInst, msgs>>
+  /\ UNCHANGED <<iid, ikind, iq, iinit, iprev, iread, ipend, data, client, gotFirst, closed, unsubbed, lateWrite, believes, nextInst, msgs, ctxc>>
 
 -----------------------------------------------------------------------------
 \* environment
@@ -236,33 +256,36 @@ DataChange ==
   /\ data < MaxVer
   /\ data' = data + 1
   /\ ipend' = [j \in Inst |-> IF ist[j] = "run" /\ iread[j] >= 0 THEN TRUE ELSE ipend[j]]
-  /\ UNCHANGED <<subs, ist, iid, ikind, iq, iinit, iprev, iread, client, gotFirst, closeQ, logq, closed, ended, unsubbed, lateWrite, believes, cause, nextInst, msgs>>
+  /\ UNCHANGED <<subs, ist, iid, ikind, iq, iinit, iprev, iread, client, gotFirst, closeQ, logq, closed, ended, unsubbed, lateWrite, believes, cause, nextInst, msgs, ctxc>>
 
 \* an idle instance whose last read is stale gets scheduled
 Invalidate(i) ==
   /\ ist[i] = "idle" /\ iread[i] # data
   /\ ist' = [ist EXCEPT ![i] = "sched"]
-  /\ UNCHANGED <<subs, iid, ikind, iq, iinit, iprev, iread, ipend, data, client, gotFirst, closeQ, logq, closed, ended, unsubbed, lateWrite, believes, cause, nextInst, msgs>>
+  /\ UNCHANGED <<subs, iid, ikind, iq, iinit, iprev, iread, ipend, data, client, gotFirst, closeQ, logq, closed, ended, unsubbed, lateWrite, believes, cause, nextInst, msgs, ctxc>>
 
 Next ==
   \/ \E id \in Ids, q \in Queries : RecvSubscribe(id, q) \/ RecvSubscribeRejected(id, q) \/ RecvMutate(id, q) \/ RecvMutateRejected(id, q)
   \/ \E id \in Ids : RecvUnsubscribe(id)
-  \/ SocketClose \/ DataChange
-  \/ \E i \in Inst : RunStart(i) \/ RunRead(i) \/ SubRunOK(i) \/ SubRunFail(i) \/ MutApply(i) \/ MutDone(i) \/ Invalidate(i)
+  \/ SocketClose \/ DataChange \/ CtxCancel
+  \/ \E i \in Inst : RunStart(i) \/ RunRead(i) \/ SubRunOK(i) \/ SubRunFail(i) \/ SubRunCancelled(i) \/ MutApply(i) \/ MutDone(i) \/ Invalidate(i)
   \/ \E p \in DOMAIN closeQ : AsyncClose(p[1], p[2])
 Spec == Init /\ [][Next]_vars
 
 -----------------------------------------------------------------------------
 \* properties
 
-Quiescent == /\ \A i \in Inst : ist[i] \in {"unused", "idle", "ended"} /\ (ist[i] = "idle" => iread[i] = data)
+\* (once the connection's context is cancelled, scheduled and stale instances simply never run again)
+Quiescent == /\ \A i \in Inst : \/ ist[i] \in {"unused", "ended"}
+                               \/ (ist[i] = "idle" /\ (iread[i] = data \/ ctxc))
+                               \/ (ist[i] = "sched" /\ ctxc)
              /\ DOMAIN closeQ = {}
 \* a retrying subscription (failing at the current data) is exempt, like a failed computation in C04
 Retrying(i) == Res[iq[i]][data] = Fail
 
 \* C02: once the data has stopped changing every live subscription's client holds the current result
 Converges ==
-  Quiescent => \A id \in Ids : believes[id] =>
+  Quiescent /\ ~ctxc => \A id \in Ids : believes[id] =>
                  /\ subs[id] # 0 /\ ikind[subs[id]] = "sub"                 \* the subscription has not been ended behind its back
                  /\ ist[subs[id]] = "idle" /\ client[id] = Strip(Res[iq[subs[id]]][data])
 \* C02: the first update of an accepted subscription is a full one: folding it into nothing gives the whole result
